@@ -84,3 +84,12 @@ Proof.
   cbv zeta in P. cbv zeta. rewrite P. clear P.
   destruct (pad_to _ _) as [key|e|]; [reflexivity|destruct e|reflexivity].
 Qed.
+
+(* the From<Integer> body of the key_no_checks_initialization! macro: the padded copy to $size bytes *)
+Lemma key_macro_from_bigint_translated : forall be size z,
+  tr_key_macro_from_bigint be size z = match key_from_bigint be (N.to_nat size) z with Ok a => Some a | _ => None end.
+Proof.
+  intros be size z. unfold tr_key_macro_from_bigint, key_from_bigint.
+  pose proof (padded_copy (N.to_nat size) (to_bytes_le be z) (fun v_key => Some v_key)) as P.
+  cbv zeta in P. cbv zeta. rewrite P. reflexivity.
+Qed.
